@@ -524,8 +524,11 @@ def main(argv):
             print(pid, [u["harness"] for u in p["units"]])
         return 0
     if argv[0] == "--build-all":
+        from props import ENABLED
         specs = []
         for pid, p in PROPS.items():
+            if pid not in ENABLED:
+                continue
             for u in p["units"]:
                 s = (u["harness"], u.get("variant", "asan"))
                 if s not in specs:
